@@ -230,6 +230,9 @@ import (
 
 type Err struct{ Fn int }
 
+// Failed records the functions that returned an error since the driver last cleared it.
+var Failed []int
+
 func (e *Err) Error() string { return fmt.Sprintf("fn%d failed", e.Fn) }
 
 func fmod(a, m int64) int64 {
@@ -379,6 +382,7 @@ func Call(fn int, fallible bool, outp interface{}, hasSrc bool, src interface{},
 		cs += Leaf0(c)
 	}
 	if fallible && fmod(sl, 5) == fmod(int64(fn), 5) {
+		Failed = append(Failed, fn)
 		return &Err{Fn: fn}
 	}
 	tok := int64(fn+1)*1000 + fmod(sl, 97)*7 + fmod(cs, 13)
